@@ -24,6 +24,12 @@
  *       tonative null DESTLEN     -> fail | …             (addr == NULL, a real destination of DESTLEN bytes)
  *       tonative nulldest ADDR DESTLEN -> fail | ok-or-write   (dest == NULL)
  *       getnull                   -> size=0 fam=0 text=NULL port=0 flow=0 scope=0 any=0 loop=0 set=1   (every getter, both setters and free on NULL)
+ *       platform text functions against their Lean model (PV.Model.Inet6Text; the library is not called, a
+ *       difference is a correspondence break of that model, not a finding about the library):
+ *       ntop6 HEX32               -> t=HEX back=HEX32|-   (inet_ntop (AF_INET6) into 46 bytes; inet_pton (AF_INET6) of that text)
+ *       ntop4 HEX8                -> t=HEX back=HEX8|-    (the same with AF_INET, 16 bytes)
+ *       pton STRHEX               -> p4=HEX8|- p6=HEX32|- gai=FAMILY:HEX|-|n/a   (inet_pton both families; getaddrinfo
+ *                                    (AI_NUMERICHOST) only for strings with ':' and without '%', else n/a)
  *       reset                     -> ok
  * DUMP = fam=F port=P flow=FL scope=SC size=N any=A loop=L plat=AL nat=HEX
  *        (getters; `nat` = to_native into a buffer of exactly `size` bytes; `plat` = the platform's own
@@ -119,6 +125,39 @@ static void platform_str (const char *s) {
 		freeaddrinfo (res);
 	} else
 		fprintf (out, "-");
+}
+
+/* the platform's text functions alone (ops ntop6 / ntop4 / pton) */
+static void platform_ntop (int af, const unsigned char *addr, size_t alen) {
+	char buf[INET6_ADDRSTRLEN];
+	unsigned char back[16];
+	if (inet_ntop (af, addr, buf, af == AF_INET ? INET_ADDRSTRLEN : INET6_ADDRSTRLEN) == NULL) { fprintf (out, "t=NULL back=-"); return; }
+	fprintf (out, "t="); hex (buf, strlen (buf));
+	fprintf (out, " back=");
+	if (inet_pton (af, buf, back) > 0) hex (back, alen); else fprintf (out, "-");
+}
+
+static void platform_pton (const char *s) {
+	unsigned char a4[4], a6[16];
+	fprintf (out, "p4=");
+	if (inet_pton (AF_INET, s, a4) > 0) hex (a4, 4); else fprintf (out, "-");
+	fprintf (out, " p6=");
+	if (inet_pton (AF_INET6, s, a6) > 0) hex (a6, 16); else fprintf (out, "-");
+	fprintf (out, " gai=");
+	if (strchr (s, ':') != NULL && strchr (s, '%') == NULL) {
+		struct addrinfo hints, *res = NULL;
+		memset (&hints, 0, sizeof hints);
+		hints.ai_family = AF_UNSPEC;
+		hints.ai_socktype = SOCK_STREAM;
+		hints.ai_flags = AI_NUMERICHOST;
+		if (getaddrinfo (s, NULL, &hints, &res) == 0) {
+			fprintf (out, "%d:", res->ai_family);
+			hex (res->ai_addr, res->ai_addrlen);
+			freeaddrinfo (res);
+		} else
+			fprintf (out, "-");
+	} else
+		fprintf (out, "n/a");
 }
 
 static void dump (PSocketAddress *a) {
@@ -321,6 +360,16 @@ int main (int argc, char **argv) {
 		} else if (!strcmp (t[0], "sup") && n == 1) {
 			fprintf (out, "flow=%d scope=%d ipv6=%d\n", p_socket_address_is_flow_info_supported () ? 1 : 0,
 				p_socket_address_is_scope_id_supported () ? 1 : 0, p_socket_address_is_ipv6_supported () ? 1 : 0);
+		} else if ((!strcmp (t[0], "ntop6") || !strcmp (t[0], "ntop4")) && n == 2) {
+			long len; unsigned char *b = unhex (t[1], &len);
+			long want = t[0][4] == '6' ? 16 : 4;
+			if (len != want) fputs ("bad-op\n", out);
+			else { platform_ntop (want == 16 ? AF_INET6 : AF_INET, b, (size_t) want); fprintf (out, "\n"); }
+			free (b);
+		} else if (!strcmp (t[0], "pton") && n == 2) {
+			char *s = unhex_str (t[1]);
+			if (s == NULL) fputs ("bad-op\n", out);
+			else { platform_pton (s); fprintf (out, "\n"); free (s); }
 		} else if (!strcmp (t[0], "reset") && n == 1) fputs ("ok\n", out);
 		else fputs ("bad-op\n", out);
 		fflush (out);
